@@ -175,6 +175,10 @@ def body(case, stats):
     df = solve_or_skip(sys, stats, energy=True)
     tab = Table(df)
     nt = check_aggregates(spec, tab, True, stats)
+    if spec["phases"]:
+        # the aggregates of a single requested phase are those of the all-phase result
+        from vlib.props.c06 import _single_vs_all
+        _single_vs_all(sys, spec, df, energy=True)
     stats.cls("solved")
     if spec["phases"]:
         stats.cls("with_phases")
